@@ -327,6 +327,20 @@ def run_shapes(ctx):
                        "files": {"s.json": json.dumps(schema)}, "argv": ["s.json"], "jobs": jobs})
                 meta.append((cid, n, flag, sn, schema))
             n += 1
+    # two definitions that collide on one Go name and whose bounds differ by 1 at a type limit (itemCount 0..2^32, item_count 0..2^32-1): each keeps its own
+    for hia, hib in ((4294967296, 4294967295), (2147483648, 2147483647), (65536, 65535), (9007199254740993, 9007199254740992)):
+        schema = {"type": "object", "$defs": {"itemCount": {"type": "integer", "minimum": 0, "maximum": hia}, "item_count": {"type": "integer", "minimum": 0, "maximum": hib}},
+                  "properties": {"current": {"$ref": "#/$defs/itemCount"}, "legacy": {"$ref": "#/$defs/item_count"}}}
+        for key in ("legacy", "current"):
+            vals2 = [hib - 1, hib, hia, hia + 1, 0, -1]
+            in_range[n] = (lambda v: True)
+            for flag in (False, True):
+                cid = "s%d%s" % (n, "on" if flag else "off")
+                jobs = [{"t": "S", "doc": json.dumps({key: v}), "x": v} for v in vals2]
+                b.add({"id": cid, "cfg": {"min_sized_ints": flag, "tags": ["json"], "mappings": [{"id": "", "root": "S", "package": cid, "output": cid + "/gen.go"}]},
+                       "files": {"s.json": json.dumps(schema)}, "argv": ["s.json"], "jobs": jobs})
+                meta.append((cid, n, flag, "colliding-definitions-bounds-one-apart", schema))
+            n += 1
     b.run()
     by = {}
     for cid, i, flag, sn, schema in meta:
